@@ -83,6 +83,19 @@ def check_project(ctx, fi):
             v = v.func.value          # a copy keeps the layout
         ok = isinstance(v, ast.Call) and isinstance(v.func, ast.Attribute) and v.func.attr == 'project' and len(v.args) == 1 \
             and U(v.args[0]) == attrs
+        if not ok and isinstance(v, ast.Subscript) and U(v.value) == 'self.marginals':
+            # the cached marginal of clique K itself, returned under `attrs == K`: already in the requested order
+            K_ = U(v.slice)
+            par = getattr(r, '_parent', None)
+            while par is not None and not isinstance(par, ast.If):
+                par = getattr(par, '_parent', None)
+            if isinstance(par, ast.If) and isinstance(par.test, ast.Compare) and len(par.test.ops) == 1 and isinstance(par.test.ops[0], ast.Eq):
+                def strip_(x):
+                    while isinstance(x, ast.Call) and isinstance(x.func, ast.Name) and x.func.id in ('tuple', 'list') and len(x.args) == 1:
+                        x = x.args[0]
+                    return U(x)
+                sides = {strip_(par.test.left), strip_(par.test.comparators[0])}
+                ok = sides == {attrs, K_} and r in par.body
         ctx.ob('requested-order', fi, r, ok, 'the answer must be ordered by the requested tuple: `<factor>.project(%s)`; returns `%s`' % (attrs, U(v)[:70]))
     # attrs may only be normalised list -> tuple
     for s in walk_shallow(fi.node):
